@@ -82,7 +82,14 @@ fn regs(invalid: bool) -> impl Strategy<Value = Vec<Reg>> {
         let n = picks.len();
         (Just(pool), Just(picks), prop::collection::vec(path(4, invalid), n), prop::collection::vec(any::<bool>(), n))
     })
-    .prop_map(|(pool, picks, fresh, use_fresh)| {
+    .prop_map(|(mut pool, picks, fresh, use_fresh)| {
+        // the pool also holds the ancestors of its paths, so that nested registrations (and modules with several
+        // registered textual prefixes) stay frequent although the alphabet is wider
+        for p in pool.clone() {
+            for d in 1..p.len() {
+                pool.push(p[..d].to_vec());
+            }
+        }
         picks
             .iter()
             .enumerate()
